@@ -59,10 +59,11 @@ let aerr_string = function
 
 let cres_string = function
   | Query.COk r -> "200 " ^ hdr_string r
-  | Query.CNil -> "500 -"
+  | Query.CNil -> "400 ErrAncestorNotFound"
   | Query.CErrNotFound -> "404 ErrHeaderNotFound"
   | Query.CErrAnc -> "400 ErrAncestorNotFound"
   | Query.CPanic -> "500 -"
+  | Query.CBind -> "400 ErrBindBody"
 
 (* ---------- model ---------- *)
 let model_query (s : Store.store) (q : string) : string =
@@ -76,7 +77,7 @@ let model_query (s : Store.store) (q : string) : string =
   | "R" ->
     (match split_on '/' arg with
      | [h; c] ->
-       if not (is_num h) then "500 error-unknown"
+       if not (is_num h) then "400 ErrInvalidHeightParam"
        else
          let cnt = if is_num c then int_opt c else None in
          list_string hdr_string (Query.by_height_range s (z_of_string h) cnt)
@@ -87,9 +88,9 @@ let model_query (s : Store.store) (q : string) : string =
          | Query.AOk p -> list_string hdr_string p
          | Query.AErr e -> aerr_string e)
      | _ -> failwith "bad A")
-  | "C" -> cres_string (Query.common_ancestor s (ids_of arg))
+  | "C" -> cres_string (Query.common_ancestor_endpoint s (ids_of arg))
   | "B" -> (match arg with
-      | "null" -> cres_string (Query.common_ancestor s [])
+      | "null" -> cres_string (Query.common_ancestor_endpoint s [])
       | _ -> "400 ErrBindBody")
   | _ -> failwith ("unknown query " ^ q)
 
@@ -101,8 +102,7 @@ let model input =
 (* ---------- spec oracle on the implementation's answers ---------- *)
 (* classes of departures that are documented findings; used ONLY to order the report so that an
    undocumented failure in the same batch is never hidden behind a documented one *)
-let documented = ["ancestors-equal-height-empty"; "ancestors-orphan-late-parent"; "common-ancestor-orphan-late-parent";
-                  "common-ancestor-none-crash"; "common-ancestor-empty-list-crash"]
+let documented = ["ancestors-equal-height-empty"; "ancestors-orphan-late-parent"; "common-ancestor-orphan-late-parent"]
 
 let status obs = match split_on ' ' obs with c :: _ -> (try int_of_string c with _ -> -1) | [] -> -1
 let is_4xx obs = let c = status obs in c >= 400 && c < 500
